@@ -355,6 +355,8 @@ static int ex_region(char *loc, int *beg, int *end)
 		return 1;
 	if (*end < *beg || *end > lbuf_len(xb))
 		return 1;
+	if (*end == *beg && *end)	/* a reversed range such as 4,3 */
+		return 1;
 	return 0;
 }
 
